@@ -142,7 +142,7 @@ theorem run1_ok_inv {sch : Schema} {s : Store} {op : Op} {st : St} (h : run1 sch
     split at h
     · cases h
     · rename_i hv
-      obtain ⟨h1, h2⟩ := create_ok h hv hI.agree hI.range
+      obtain ⟨h1, h2, _⟩ := create_ok h hv hI.agree hI.range
       exact ⟨h2, h1⟩
   | delete o =>
     simp only at h
